@@ -48,9 +48,10 @@ type KOp struct {
 	W     int32            `json:"w,omitempty"`
 	B     bool             `json:"b,omitempty"`
 	WM    uint8            `json:"wm,omitempty"`
-	FM    string           `json:"fm,omitempty"`    // setfailure: silent | log | panic = the library's named constant (else V)
-	Plans []simkernel.Plan `json:"plans,omitempty"` // reactions to the requests this operation sends
-	Pre   []simkernel.Item `json:"pre,omitempty"`   // put on the receive queue before the operation (unsolicited traffic)
+	FM    string           `json:"fm,omitempty"`     // setfailure: silent | log | panic = the library's named constant (else V)
+	Plans []simkernel.Plan `json:"plans,omitempty"`  // reactions to the requests this operation sends
+	Pre   []simkernel.Item `json:"pre,omitempty"`    // put on the receive queue before the operation (unsolicited traffic)
+	GapMs int              `json:"gap_ms,omitempty"` // real time that passes before the operation (the model has no clock)
 }
 
 // failureMode is the argument SetFailure is called with.
@@ -240,6 +241,9 @@ func runClientImpl(c KCase) *clientRun {
 	run := &clientRun{Pid: uint32(os.Getpid())}
 	seq := c.Seq0
 	for _, op := range c.Ops {
+		if op.GapMs > 0 {
+			time.Sleep(time.Duration(op.GapMs) * time.Millisecond)
+		}
 		sim.SetPlans(op.Plans)
 		sim.Enqueue(op.Pre)
 		nS, nR, _, _ := sim.Counts()
@@ -463,6 +467,8 @@ func runClientCase(ctx *Ctx, m *common.Model, c KCase, idx int) *common.Violatio
 		return runEchoCase(ctx, m, c, idx)
 	case "exactfit":
 		return runExactFitCase(ctx, c, idx)
+	case "tail":
+		return runTailCase(ctx, c, idx)
 	case "seqwrap":
 		return runSeqWrapCase(ctx, c, idx)
 	case "spoof":
@@ -830,6 +836,16 @@ func shrinkClient(ctx *Ctx, m *common.Model, c KCase, v *common.Violation) KCase
 	budget := 400
 	if hasEagain(c) {
 		budget = 60
+	}
+	// histories in which real time passes (pauses, slow receive calls) are re-run for at most half a minute
+	deadline := time.Now().Add(30 * time.Second)
+	inTime := fails
+	fails = func(x KCase) bool {
+		if time.Now().After(deadline) {
+			budget = 0
+			return false
+		}
+		return inTime(x)
 	}
 	for changed := true; changed && budget > 0; {
 		changed = false
